@@ -14,32 +14,36 @@ def Inv (o : Op) : Prop :=
   (o.main = .parkedWait → o.watcher ≠ .exited) ∧
   (o.main = .finished ↔ o.result.isSome = true) ∧
   (o.main = .finished → o.watcher = .exited) ∧
-  (o.doneClosed = false → o.transferred = 0 ∧ o.n = 0) ∧
-  (o.doneClosed = true → o.n = o.transferred ∧ o.n ≤ o.want ∧
-      (o.callErr = .timeout → o.n = 0 ∧ o.cancelled = true) ∧ (o.callErr = .nil ∨ o.callErr = .timeout) ∧
-      (o.callErr = .nil → 0 < o.want → 0 < o.n)) ∧
+  (o.n = o.transferred ∧ o.n ≤ o.want) ∧
+  (o.main = .start → o.n = 0) ∧
+  (o.main = .inCall → o.n = 0 ∨ (o.stream = true ∧ o.n < o.want)) ∧
+  (o.doneClosed = true →
+      (o.callErr = .timeout →
+        o.cancelled = true ∧ (o.n = 0 ∨ (o.stream = true ∧ 0 < o.n ∧ o.n < o.want))) ∧
+      (o.callErr = .nil ∨ o.callErr = .timeout) ∧
+      (o.callErr = .nil → (0 < o.want → 0 < o.n) ∧ (o.stream = true → o.n = o.want))) ∧
   (∀ n' e, o.result = some (n', e) → n' = o.n ∧
-      ((e = .ctx ∧ o.cancelled = true ∧ o.n = 0) ∨ (e = .nil ∧ o.callErr = .nil)))
+      ((e = .ctx ∧ o.cancelled = true ∧ o.n = 0) ∨ (e = o.callErr ∧ (e = .timeout → 0 < o.n))))
 
-theorem inv_new (want avail : Nat) (c : Bool) : Inv (Op.new want avail c) := by
+theorem inv_new (want avail : Nat) (c st : Bool) : Inv (Op.new want avail c st) := by
   simp [Inv, Op.new]
 
 theorem inv_step_data (o : Op) (k : Nat) (h : Inv o) : Inv (step o (.data k)) := by
   simpa [Inv, step] using h
 
 theorem inv_step_cancel (o : Op) (h : Inv o) : Inv (step o .cancel) := by
-  rcases o with ⟨m, w, c, d, dl, av, wt, n, ce, r, tr⟩
+  rcases o with ⟨m, w, c, d, dl, av, wt, n, ce, r, tr, st⟩
   simp only [Inv, step, Op.ctxBranch] at h ⊢
   grind
 
 theorem inv_stepWatcher (o : Op) (h : Inv o) : Inv o.stepWatcher := by
-  rcases o with ⟨m, w, c, d, dl, av, wt, n, ce, r, tr⟩
+  rcases o with ⟨m, w, c, d, dl, av, wt, n, ce, r, tr, st⟩
   cases w <;> cases d <;> cases c <;> cases m <;>
     simp [Inv, Op.stepWatcher, Op.ctxBranch, Op.watcherExit, Op.finish] at h ⊢ <;> grind
 
 theorem inv_ctxBranch (o : Op) (h : Inv o) (hw : o.watcher = .atSelect) (hc : o.cancelled = true) :
     Inv o.ctxBranch := by
-  rcases o with ⟨m, w, c, d, dl, av, wt, n, ce, r, tr⟩
+  rcases o with ⟨m, w, c, d, dl, av, wt, n, ce, r, tr, st⟩
   simp only [Inv, Op.ctxBranch] at h hw hc ⊢
   grind
 
@@ -52,7 +56,7 @@ theorem inv_step_watcherCtx (o : Op) (h : Inv o) : Inv (step o .watcherCtx) := b
   · exact inv_stepWatcher o h
 
 theorem inv_step_main (o : Op) (h : Inv o) : Inv (step o .main) := by
-  rcases o with ⟨m, w, c, d, dl, av, wt, n, ce, r, tr⟩
+  rcases o with ⟨m, w, c, d, dl, av, wt, n, ce, r, tr, st⟩
   cases m <;> cases w <;> cases dl <;>
     simp [Inv, step, Op.closeDone, Op.watcherExit, Op.finish] at h ⊢ <;> grind
 
@@ -103,7 +107,7 @@ theorem inv_run (o : Op) (ss : List Step) (h : Inv o) : Inv (run o ss) := by
 
 theorem step_want (o : Op) (s : Step) : (step o s).want = o.want := by
   cases s <;> simp only [step]
-  · split <;> (try split) <;> (try split) <;> simp
+  · split <;> (try split) <;> (try split) <;> (try split) <;> simp
   · simp
   · split <;> simp
   · split <;> simp
@@ -113,6 +117,27 @@ theorem run_want (o : Op) (ss : List Step) : (run o ss).want = o.want := by
   | nil => rfl
   | cons s ss ih => simp [run, ih, step_want]
 
+theorem watcherExit_stream (o : Op) (b : Bool) : (o.watcherExit b).stream = o.stream := by
+  simp only [Op.watcherExit]; split <;> rfl
+theorem closeDone_stream (o : Op) : o.closeDone.stream = o.stream := by
+  simp only [Op.closeDone]; split <;> simp [watcherExit_stream]
+theorem stepWatcher_stream (o : Op) : o.stepWatcher.stream = o.stream := by
+  simp only [Op.stepWatcher]; split <;> (try split) <;> (try split) <;>
+    simp [watcherExit_stream, Op.ctxBranch]
+
+theorem step_stream (o : Op) (s : Step) : (step o s).stream = o.stream := by
+  cases s <;> simp only [step]
+  · split <;> (try split) <;> (try split) <;> (try split) <;>
+      simp [closeDone_stream, Op.finish]
+  · exact stepWatcher_stream o
+  · split <;> simp [stepWatcher_stream, Op.ctxBranch]
+  · split <;> simp [Op.ctxBranch]
+
+theorem run_stream (o : Op) (ss : List Step) : (run o ss).stream = o.stream := by
+  induction ss generalizing o with
+  | nil => rfl
+  | cons s ss ih => simp [run, ih, step_stream]
+
 def stepData : Step → Nat
   | .data k => k
   | _ => 0
@@ -120,7 +145,7 @@ def stepData : Step → Nat
 theorem step_bytes (o : Op) (s : Step) :
     (step o s).avail + (step o s).transferred = o.avail + o.transferred + stepData s := by
   cases s <;> simp only [step, stepData]
-  · split <;> (try split) <;> (try split) <;> simp <;> omega
+  · split <;> (try split) <;> (try split) <;> (try split) <;> simp <;> omega
   · simp
   · split <;> simp
   · split <;> simp
